@@ -124,3 +124,27 @@ func (vp *VC08Part) PrimaryFirstSids() []uint64 {
 	}
 	return out
 }
+
+// PrimaryBlockSids decodes every primary (index) block of the part with the real reader and returns, per primary block,
+// the series id of every block it lists (in order).
+func (vp *VC08Part) PrimaryBlockSids() (out [][]uint64, err error) {
+	defer func() {
+		if r := recover(); r != nil {
+			err = fmt.Errorf("panic: %v", r)
+		}
+	}()
+	pi := &partIter{}
+	pi.init(vp.p, nil, 0, 0)
+	pi.err = nil
+	for i := range vp.p.primaryBlockMetadata {
+		if err := pi.readPrimaryBlock(&vp.p.primaryBlockMetadata[i]); err != nil {
+			return nil, err
+		}
+		var sids []uint64
+		for j := range pi.bms {
+			sids = append(sids, uint64(pi.bms[j].seriesID))
+		}
+		out = append(out, sids)
+	}
+	return out, nil
+}
